@@ -15,7 +15,7 @@ Import ListNotations.
    quadratic_componentwise_simultaneous_refuted_example in Proofs/RootsRoundEx.v (b = 0: the two returned values do not sum to 0). *)
 From Coq Require Import Reals.
 From Coquelicot Require Import Complex.
-From OV Require Import Proofs.RoundFlx Proofs.RootsRound Proofs.RootsRoundEx Proofs.RootsRoundFwd Proofs.RootsRoundCubic Proofs.RootsRoundFlx.
+From OV Require Import Proofs.RoundFlx Proofs.RootsRound Proofs.RootsRoundEx Proofs.RootsRoundFwd Proofs.RootsRoundCubic Proofs.RootsRoundCardano Proofs.RootsRoundFlx.
 
 (* degree 1: the returned value is the exact root of c1 x + c0 (1 + d), |d| <= eps (one negation, exact; one division) *)
 Theorem linear_root_backward_error : forall (eps : R) (O : RoundOps) (c0 c1 : C),
@@ -230,6 +230,81 @@ Example cubic_triple_branch_residual_nonvacuous :
   c_d0 (pert_ops e) a b c = RtoC 0 /\ c_d1 (pert_ops e) a b c d = RtoC 0 /\
   c_r (pert_ops e) a b = RtoC 1 /\ cval a b c d (RtoC 1) <> RtoC 0.
 Proof. exact cubic_triple_branch_nonvacuous_lemma. Qed.
+
+(* ---- degree 3, the CARDANO branch, AWAY from the recorded class KF-C10-F (Proofs/RootsRoundCardano.v).  Both mechanisms of
+   KF-C10-F are hypotheses here, and that is the point of the statement:
+     (1) accuracy: the value k^ the code obtains from Complex::pow (c_khat: computed from the EXPANDED discriminant, the libm
+         sqrt and pow) is within eps of an exact Cardano cube root k (cardano_eq: k^3 is a root of K^2 - d1 K + d0^3), the
+         constant u^ the code builds from sqrt(3)/2 is within eps of a primitive cube root of unity u, the computed d0 within
+         eps of b^2 - 3ac  -- fails near a multiple root (cancellation in dis / d0), where KF-C10-F records root errors ~1e-3;
+     (2) no cancellation in the final sums: |b| + |w| + |d0/w| <= kap |b + w + d0/w| for w = k, u k, u^2 k  -- fails for roots
+         of very different size (the second mechanism of KF-C10-F); kap is the condition number that multiplies the bound.
+   Then the three returned values are within relative distance 12 kap eps of the three exact roots -(b + w + d0/w)/(3a) ... *)
+Theorem cubic_cardano_forward_error : forall (eps : R) (O : RoundOps) (a b c d k u : C) (kap : R),
+  (0 <= eps <= / 100)%R -> std_model eps O -> a <> RtoC 0 ->
+  ~ (c_d0 O a b c = RtoC 0 /\ c_d1 O a b c d = RtoC 0) ->
+  k <> RtoC 0 -> cardano_eq a b c d k -> (u * u + u + RtoC 1)%C = RtoC 0 ->
+  relc eps (c_khat eps O a b c d) k -> relc eps (c_uhat O) u -> relc eps (c_d0 O a b c) (d0x a b c) ->
+  (forall w : C, w = k \/ w = (u * k)%C \/ w = (u * u * k)%C ->
+     (Cmod b + Cmod w + Cmod (d0x a b c / w)%C <= kap * Cmod (b + w + d0x a b c / w)%C)%R) ->
+  exists r0 r1 r2 : C, cubic_solve (RoundRAo eps O) a b c d = Ok [r0; r1; r2] /\
+    cval a b c d (cardano_val a b c k) = RtoC 0 /\ cval a b c d (cardano_val a b c (u * k)%C) = RtoC 0 /\
+    cval a b c d (cardano_val a b c (u * u * k)%C) = RtoC 0 /\
+    (Cmod (r0 - cardano_val a b c k)%C <= kap * (12 * eps) * Cmod (cardano_val a b c k))%R /\
+    (Cmod (r1 - cardano_val a b c (u * k)%C)%C <= kap * (12 * eps) * Cmod (cardano_val a b c (u * k)%C))%R /\
+    (Cmod (r2 - cardano_val a b c (u * u * k)%C)%C <= kap * (12 * eps) * Cmod (cardano_val a b c (u * u * k)%C))%R.
+Proof. intros eps O a b c d k u kap. exact (cubic_cardano_forward_lemma eps O a b c d k u kap). Qed.
+Check cubic_cardano_forward_error : forall (eps : R) (O : RoundOps) (a b c d k u : C) (kap : R),
+  (0 <= eps <= / 100)%R -> std_model eps O -> a <> RtoC 0 ->
+  ~ (c_d0 O a b c = RtoC 0 /\ c_d1 O a b c d = RtoC 0) ->
+  k <> RtoC 0 -> cardano_eq a b c d k -> (u * u + u + RtoC 1)%C = RtoC 0 ->
+  relc eps (c_khat eps O a b c d) k -> relc eps (c_uhat O) u -> relc eps (c_d0 O a b c) (d0x a b c) ->
+  (forall w : C, w = k \/ w = (u * k)%C \/ w = (u * u * k)%C ->
+     (Cmod b + Cmod w + Cmod (d0x a b c / w)%C <= kap * Cmod (b + w + d0x a b c / w)%C)%R) ->
+  exists r0 r1 r2 : C, cubic_solve (RoundRAo eps O) a b c d = Ok [r0; r1; r2] /\
+    cval a b c d (cardano_val a b c k) = RtoC 0 /\ cval a b c d (cardano_val a b c (u * k)%C) = RtoC 0 /\
+    cval a b c d (cardano_val a b c (u * u * k)%C) = RtoC 0 /\
+    (Cmod (r0 - cardano_val a b c k)%C <= kap * (12 * eps) * Cmod (cardano_val a b c k))%R /\
+    (Cmod (r1 - cardano_val a b c (u * k)%C)%C <= kap * (12 * eps) * Cmod (cardano_val a b c (u * k)%C))%R /\
+    (Cmod (r2 - cardano_val a b c (u * u * k)%C)%C <= kap * (12 * eps) * Cmod (cardano_val a b c (u * u * k)%C))%R.
+Print Assumptions cubic_cardano_forward_error.
+
+(* ... and have residual |p(x)| <= 60 kap eps (|a||x|^3 + |b||x|^2 + |c||x| + |d|) *)
+Theorem cubic_cardano_residual : forall (eps : R) (O : RoundOps) (a b c d k u : C) (kap : R),
+  (0 <= eps <= / 100)%R -> std_model eps O -> a <> RtoC 0 ->
+  ~ (c_d0 O a b c = RtoC 0 /\ c_d1 O a b c d = RtoC 0) ->
+  k <> RtoC 0 -> cardano_eq a b c d k -> (u * u + u + RtoC 1)%C = RtoC 0 ->
+  relc eps (c_khat eps O a b c d) k -> relc eps (c_uhat O) u -> relc eps (c_d0 O a b c) (d0x a b c) ->
+  (forall w : C, w = k \/ w = (u * k)%C \/ w = (u * u * k)%C ->
+     (Cmod b + Cmod w + Cmod (d0x a b c / w)%C <= kap * Cmod (b + w + d0x a b c / w)%C)%R) ->
+  (0 <= kap)%R -> (kap * (12 * eps) <= / 10)%R ->
+  exists r0 r1 r2 : C, cubic_solve (RoundRAo eps O) a b c d = Ok [r0; r1; r2] /\
+    forall x : C, x = r0 \/ x = r1 \/ x = r2 -> (Cmod (cval a b c d x) <= 60 * kap * eps * csize a b c d x)%R.
+Proof. intros eps O a b c d k u kap. exact (cubic_cardano_residual_lemma eps O a b c d k u kap). Qed.
+Check cubic_cardano_residual : forall (eps : R) (O : RoundOps) (a b c d k u : C) (kap : R),
+  (0 <= eps <= / 100)%R -> std_model eps O -> a <> RtoC 0 ->
+  ~ (c_d0 O a b c = RtoC 0 /\ c_d1 O a b c d = RtoC 0) ->
+  k <> RtoC 0 -> cardano_eq a b c d k -> (u * u + u + RtoC 1)%C = RtoC 0 ->
+  relc eps (c_khat eps O a b c d) k -> relc eps (c_uhat O) u -> relc eps (c_d0 O a b c) (d0x a b c) ->
+  (forall w : C, w = k \/ w = (u * k)%C \/ w = (u * u * k)%C ->
+     (Cmod b + Cmod w + Cmod (d0x a b c / w)%C <= kap * Cmod (b + w + d0x a b c / w)%C)%R) ->
+  (0 <= kap)%R -> (kap * (12 * eps) <= / 10)%R ->
+  exists r0 r1 r2 : C, cubic_solve (RoundRAo eps O) a b c d = Ok [r0; r1; r2] /\
+    forall x : C, x = r0 \/ x = r1 \/ x = r2 -> (Cmod (cval a b c d x) <= 60 * kap * eps * csize a b c d x)%R.
+Print Assumptions cubic_cardano_residual.
+(* x^3 - 1 in the perturbing arithmetic with pow returning the exact Cardano cube root -3 (pow is an oracle of the model; its
+   accuracy is hypothesis (1)): every hypothesis holds with kap = 1, and the first exact root is 1 *)
+Example cubic_cardano_residual_nonvacuous :
+  let e := (/ 1024)%R in let O := cardano_ops e in
+  let a := RtoC 1 in let b := RtoC 0 in let c := RtoC 0 in let d := RtoC (-1) in
+  let k := RtoC (-3) in let u : C := (Ropp (/ 2), (R_sqrt.sqrt 3 / 2)%R) in
+  (0 <= e <= / 100)%R /\ std_model e O /\ a <> RtoC 0 /\ ~ (c_d0 O a b c = RtoC 0 /\ c_d1 O a b c d = RtoC 0) /\
+  k <> RtoC 0 /\ cardano_eq a b c d k /\ (u * u + u + RtoC 1)%C = RtoC 0 /\
+  relc e (c_khat e O a b c d) k /\ relc e (c_uhat O) u /\ relc e (c_d0 O a b c) (d0x a b c) /\
+  (forall w : C, w = k \/ w = (u * k)%C \/ w = (u * u * k)%C ->
+     (Cmod b + Cmod w + Cmod (d0x a b c / w)%C <= 1 * Cmod (b + w + d0x a b c / w)%C)%R) /\
+  (0 <= 1)%R /\ (1 * (12 * e) <= / 10)%R /\ cardano_val a b c k = RtoC 1.
+Proof. exact cardano_nonvacuous_lemma. Qed.
 
 (* ---- an instance of std_model that REALLY ROUNDS, built from the model's own complex operators (Proofs/RootsRoundFlx.v):
    [flx_ops fsqrt] = cadd / csub / cmul / cdiv / cmul_r of Model/Complex.v (the formulas of src/complex/mod.rs) over the
